@@ -96,3 +96,8 @@ Definition unused_program (p : program) : program := un_block (uses_block p) p.
 (* the model cannot speak about a program whose dump lost subexpressions *)
 Definition opaque_kind (k : string) : bool :=
   mem k ["range"; "slice"; "struct"; "cast"]%string.
+
+(* a session unit (top_level_open = true: REPL input, host-API unit): a top-level `let` is a
+   global that a later unit may read, so the top-level list itself is not filtered; locals of
+   its functions and blocks still are *)
+Definition unused_session_unit (p : program) : program := map (un_stmt (uses_block p)) p.
